@@ -26,14 +26,21 @@ type Fact struct {
 	Not  []string // known different from these sentinels
 	App  Tri      // common.IsAppError(v) known true / false
 	Bool Tri      // for boolean values
+	// Alias: this (phi) value is, on the current path, a copy of that value (possibly behind NOTs): assuming the one
+	// assumes the other. Set by EnterBlock when the incoming operand carries no fact of its own.
+	Alias ssa.Value
 }
 
 func (f Fact) key() string {
-	return fmt.Sprintf("%d/%s/%s/%d/%d", f.Nil, f.Sent, strings.Join(f.Not, ","), f.App, f.Bool)
+	a := ""
+	if f.Alias != nil {
+		a = f.Alias.Name()
+	}
+	return fmt.Sprintf("%d/%s/%s/%d/%d/%s", f.Nil, f.Sent, strings.Join(f.Not, ","), f.App, f.Bool, a)
 }
 
 func (f Fact) zero() bool {
-	return f.Nil == Unknown && f.Sent == "" && len(f.Not) == 0 && f.App == Unknown && f.Bool == Unknown
+	return f.Nil == Unknown && f.Sent == "" && len(f.Not) == 0 && f.App == Unknown && f.Bool == Unknown && f.Alias == nil
 }
 
 // Facts maps SSA values (and Alloc cells, for variables that live in memory) to facts.
@@ -235,6 +242,14 @@ func (fs Facts) Assume(cond ssa.Value, truth bool) bool {
 	}
 	// generic boolean value
 	f := fs.Eval(cond)
+	if f.Alias != nil && f.Alias != cond {
+		al := f.Alias
+		f.Alias = nil
+		fs.Set(target(cond), f)
+		if !fs.Assume(al, truth) {
+			return false
+		}
+	}
 	if truth {
 		if f.Bool == No {
 			return false
@@ -264,7 +279,11 @@ func (fs Facts) Step(ins ssa.Instruction) {
 	switch x := ins.(type) {
 	case *ssa.Store:
 		if _, ok := x.Addr.(*ssa.Alloc); ok {
-			fs.Set(x.Addr, fs.Eval(x.Val))
+			f := fs.Eval(x.Val)
+			if _, isConst := x.Val.(*ssa.Const); !isConst && f.zero() && isBool(x.Val.Type()) {
+				f = Fact{Alias: x.Val}
+			}
+			fs.Set(x.Addr, f)
 		} else if _, ok := x.Addr.(*ssa.FreeVar); ok {
 			fs.Set(x.Addr, fs.Eval(x.Val))
 		}
@@ -301,11 +320,20 @@ func (fs Facts) EnterBlock(b, pred *ssa.BasicBlock) {
 		if !ok {
 			break
 		}
-		us = append(us, upd{phi, fs.Eval(phi.Edges[idx])})
+		f := fs.Eval(phi.Edges[idx])
+		if _, isConst := phi.Edges[idx].(*ssa.Const); !isConst && f.zero() && isBool(phi.Type()) {
+			f = Fact{Alias: phi.Edges[idx]}
+		}
+		us = append(us, upd{phi, f})
 	}
 	for _, u := range us {
 		fs.Set(u.phi, u.f)
 	}
+}
+
+func isBool(t types.Type) bool {
+	b, ok := t.Underlying().(*types.Basic)
+	return ok && b.Kind() == types.Bool
 }
 
 // PhiOperand returns the operand of phi for the edge pred -> phi.Block().
